@@ -236,7 +236,7 @@ class SockIOWorld(World):
                    "partialData is demanded on the end-of-stream path only; on a fatal errno it must be right if present",
                    "for sends, a retryable errno may legitimately end in ConnectionClosedError ('or raises')",
                    "read size 0 may touch the socket once (MSG_WAITALL path) and then reports what the socket reported"]
-    QUICK_RUNS = 24000
+    QUICK_RUNS = 80000
     CHUNK = 500
     SHRINK_LISTS = ["ops"]
     THREADED = False
